@@ -5,6 +5,7 @@ import Mathlib.Tactic.Linarith
 import Mathlib.Tactic.SplitIfs
 import Mathlib.Tactic.Push
 import Mathlib.Tactic.Order
+import QsGen.Views
 
 /-!
 # The fixed tactic that discharges the translator's tie obligations `Gen.f = Qs.f`
@@ -56,3 +57,33 @@ macro_rules
       | (simp only [$ds,*, $h:ident] <;> split_ifs <;> qs_tie_leaf)
       | (simp [$ds,*, $h:ident] <;> split_ifs <;> qs_tie_leaf)
       | (simp only [$ds,*, $h:ident] <;> grind))
+
+/-! ## views of `Portfolio` steps -/
+
+section
+variable {α : Type} [Add α] [Sub α] [Mul α] [Div α] [Neg α] [NumOps α]
+
+@[simp] theorem Qs.Tie.view_same (p : Qs.Portfolio α) (e : Option Qs.Err) :
+    Qs.Gen.pfView p (p, e) = Qs.Gen.PfView.mk e p.clock p.cash false 0 "" (ofInt 0) (ofInt 0) (ofInt 0) := by
+  simp [Qs.Gen.pfView]
+
+@[simp] theorem Qs.Tie.view_upd (p : Qs.Portfolio α) (e : Option Qs.Err) (i : String) (c : Int) (m : α) (ps : Qs.Positions α) :
+    Qs.Gen.pfView p ({ id := i, clock := c, cash := m, positions := ps, history := p.history }, e)
+      = Qs.Gen.PfView.mk e c m false 0 "" (ofInt 0) (ofInt 0) (ofInt 0) := by
+  simp [Qs.Gen.pfView]
+
+@[simp] theorem Qs.Tie.view_grow (p : Qs.Portfolio α) (e : Option Qs.Err) (i : String) (c : Int) (m : α) (ps : Qs.Positions α)
+    (ev : Qs.Event α) :
+    Qs.Gen.pfView p ({ id := i, clock := c, cash := m, positions := ps, history := p.history ++ [ev] }, e)
+      = Qs.Gen.PfView.mk e c m true ev.time ev.kind.name ev.debit ev.credit ev.balance := by
+  simp [Qs.Gen.pfView]
+
+end
+
+/-- obligations of the form `pfView p (model step) = Gen step …` (or one component of it): unfold, split every `if` and the
+model's `match` on the position handler's outcome, rewrite the view of each resulting state, close the arithmetic -/
+syntax "qs_tie_view" "[" Lean.Parser.Tactic.simpLemma,* "]" : tactic
+macro_rules
+  | `(tactic| qs_tie_view [$ds,*]) => `(tactic|
+      (simp only [$ds,*] <;> split_ifs <;> (try split) <;> (try simp_all [Qs.EventKind.name, Qs.dirOf]) <;>
+        (first | done | omega | (exfalso; omega) | linarith | (exfalso; linarith) | qs_tie_leaf)))
